@@ -43,6 +43,7 @@ import GM.Props.C18
 import GM.Proof.AstTrace
 import GM.Props.Inlines
 import GM.Props.Blocks
+import GM.Props.Wf0
 
 namespace GM.Props.C05
 
@@ -256,5 +257,25 @@ theorem block_lines_in_range : type_of% @GM.Props.Blocks.lines_in_range := @GM.P
 theorem block_parsers_keep_line_end : type_of% @GM.Props.Blocks.open_keeps_stop := @GM.Props.Blocks.open_keeps_stop
 /-- Only blockquote, list and list item can have children: the seven leaf block parsers always answer NoChildren. -/
 theorem only_containers_have_children : type_of% @GM.Props.Blocks.only_containers_have_children := @GM.Props.Blocks.only_containers_have_children
+
+/-- (re-export of `GM.Props.Wf0.inline_lines_ordered`) **C05(c), order clause, every source.** When the block phase returns, every block of the store that is not raw —
+    `!IsRaw()`: Document, Paragraph, TextBlock, ThematicBreak, Blockquote, Heading, List, ListItem; in particular every
+    block whose lines the inline phase reads — has increasing line segments: the first starts at or behind 0, each next
+    one at or behind the previous `Stop`. (Reachable from the Document or not: replaced paragraphs are included.) -/
+theorem block_lines_ordered : type_of% @GM.Props.Wf0.inline_lines_ordered := @GM.Props.Wf0.inline_lines_ordered
+
+/-- (re-export of `GM.Props.Wf0.inline_lines_in_range_and_ordered`) **C05(c) for non-raw blocks, both clauses, as the Boolean the driver evaluates** (`GM.Blocks.linesOK`, op
+    `blocks lines`): every line inside the source, padding ≥ 0, and a line never starts before the previous line's stop. -/
+theorem block_lines_in_range_and_ordered : type_of% @GM.Props.Wf0.inline_lines_in_range_and_ordered := @GM.Props.Wf0.inline_lines_in_range_and_ordered
+
+/-- (re-export of `GM.Props.Wf0.inline_lines_wellformed`) **The lines of every non-raw block that has lines are WELL FORMED, every source**: `WFSegs src n.lines`
+    (GM.Spec.Cursor) — a non-empty list of non-empty segments inside the source that increase, padding ≥ 0, no
+    ForceNewline. This is the predicate `GM.LinkRef.guardedTransform` checks (`wfSegsB`) and, up to `padding = 0`, the
+    `WF0` the inline-phase theorems assume. -/
+theorem block_lines_wellformed : type_of% @GM.Props.Wf0.inline_lines_wellformed := @GM.Props.Wf0.inline_lines_wellformed
+
+/-- (re-export of `GM.Props.Wf0.lines_ordered_reduction`) **what `LinesInRange` still needs**: the range clause is proved for all blocks and the order clause for the non-raw
+    ones, so `GM.Props.Blocks.LinesInRange src` is equivalent to the order clause for the three raw kinds alone. -/
+theorem block_lines_order_remaining : type_of% @GM.Props.Wf0.lines_ordered_reduction := @GM.Props.Wf0.lines_ordered_reduction
 
 end GM.Props.C05
